@@ -3,6 +3,7 @@
 mod alloc;
 mod codec;
 mod corpus;
+mod damrun;
 mod dbdump;
 mod dbgen;
 mod dbq;
@@ -14,6 +15,10 @@ mod gen_user_types;
 mod usertypes;
 mod rng;
 mod sexp;
+mod watch;
+#[cfg(all(agdb_verif, feature = "h1_multimap"))]
+mod omaprun;
+mod valrun;
 #[cfg(agdb_verif)]
 mod walrun;
 #[cfg(agdb_verif)]
@@ -65,6 +70,15 @@ pub fn write_stats(path: &str, stats: &BTreeMap<String, u64>, evaluations: u64, 
 fn main() {
     let args: Vec<String> = std::env::args().collect();
     let cmd = args.get(1).cloned().unwrap_or_default();
+    if cmd == "c07-worker" {
+        damrun::worker();
+        return;
+    }
+    if cmd == "c07-child" {
+        // c07-child <path> <variant> <allocation limit>
+        damrun::child(&args[2], &args[3], args.get(4).and_then(|x| x.parse().ok()).unwrap_or(usize::MAX));
+        return;
+    }
     let seed: u64 = arg(&args, "--seed", "1").parse().unwrap();
     let n: usize = arg(&args, "--n", "10").parse().unwrap();
     let out = arg(&args, "--out", ".");
@@ -167,6 +181,34 @@ fn main() {
             write_lines(&format!("{}/oracle.txt", out), &o.oracle);
             write_stats(&format!("{}/stats.json", out), &o.stats, o.runs, o.nontrivial, &o.samples);
         }
+        "c07-seeds" => {
+            // writes the seed files (and their recovery logs) to --out, for manual experiments
+            let mut r = rng::Rng::new(seed);
+            for (name, data, wal) in damrun::build_seeds(&format!("{}/tmp", out), &mut r, arg(&args, "--tier", "quick") == "thorough") {
+                std::fs::write(format!("{}/{}.agdb", out, name), &data).unwrap();
+                if let Some(w) = wal { std::fs::write(format!("{}/.{}.agdb", out, name), &w).unwrap(); }
+                println!("{} {}", name, data.len());
+            }
+        }
+        "c07" => {
+            let thorough = arg(&args, "--tier", "quick") == "thorough";
+            let jobs: usize = arg(&args, "--jobs", "16").parse().unwrap();
+            let variants: Vec<String> = arg(&args, "--variants", "file,mapped,memory").split(',').map(|x| x.to_string()).collect();
+            let rep = damrun::run(seed, &out, thorough, jobs, &variants, &arg(&args, "--corpus", "/nonexistent"), n, &arg(&args, "--guards", "1111"));
+            write_lines(&format!("{}/cases.txt", out), &rep.cases);
+            write_lines(&format!("{}/impl.txt", out), &rep.imp);
+            write_lines(&format!("{}/oracle.txt", out), &rep.oracle);
+            write_stats(&format!("{}/stats.json", out), &rep.stats, rep.evaluations, rep.nontrivial, &rep.samples);
+        }
+        "c12" => {
+            let mut o = valrun::Out::new();
+            let mut r = rng::Rng::new(seed);
+            valrun::run(&mut r, n, &out, &mut o);
+            write_lines(&format!("{}/cases.txt", out), &o.cases);
+            write_lines(&format!("{}/impl.txt", out), &o.imp);
+            write_lines(&format!("{}/oracle.txt", out), &o.oracle);
+            write_stats(&format!("{}/stats.json", out), &o.stats, o.evaluations, o.nontrivial, &o.samples);
+        }
         "db" => {
             let opts = dbrun::Opts {
                 profile: dbgen::profile_of(&arg(&args, "--profile", "all")),
@@ -177,6 +219,8 @@ fn main() {
                 maintenance: arg(&args, "--maintenance", "0") == "1",
                 dir: out.clone(),
             };
+            // C19: per-step watchdog (exit code 3 + oracle line `timeout ...` when one step exceeds the limit)
+            watch::start(arg(&args, "--watchdog-ms", "0").parse().unwrap(), format!("{}/oracle.txt", out));
             let mut o = dbrun::Out::new();
             let mut r = rng::Rng::new(seed);
             for h in 0..n {
@@ -201,6 +245,20 @@ fn main() {
             };
             let mut o = dbrun::Out::new();
             dbsmall::run(&opts, &mut o);
+            write_lines(&format!("{}/cases.txt", out), &o.cases);
+            write_lines(&format!("{}/impl.txt", out), &o.imp);
+            write_lines(&format!("{}/oracle.txt", out), &o.oracle);
+            write_stats(&format!("{}/stats.json", out), &o.stats, o.histories, o.nontrivial, &o.samples);
+        }
+        #[cfg(all(agdb_verif, feature = "h1_multimap"))]
+        "omap" => {
+            let steps: usize = arg(&args, "--steps", "200").parse().unwrap();
+            let mut o = omaprun::Out { cases: vec![], imp: vec![], oracle: vec![], stats: BTreeMap::new(), samples: vec![], nontrivial: 0, histories: 0 };
+            let mut r = rng::Rng::new(seed);
+            for _ in 0..n {
+                let mut hr = r.fork();
+                omaprun::run_history(&mut hr, steps, &mut o);
+            }
             write_lines(&format!("{}/cases.txt", out), &o.cases);
             write_lines(&format!("{}/impl.txt", out), &o.imp);
             write_lines(&format!("{}/oracle.txt", out), &o.oracle);
